@@ -270,7 +270,9 @@ def apply(w, e):
 def cases(tier, seed):
     out = []
     P = 2 if tier == "quick" else 3
-    for frames in ([], [1], [1, 2]):
+    # frames delivered by the receive thread: positive = a frame of this map (data byte), 0 = a frame with another CAN id
+    # that the map is (still) subscribed to, e.g. its COB-ID before a reconfiguration
+    for frames in ([], [1], [1, 2], [0], [0, 1], [1, 0]):
         for pre in (False, True):
             out.append({"part": "wait", "frames": frames, "pre_received": pre, "P": P})
     from checks import c05
@@ -433,7 +435,11 @@ def run_wait(case, st):
 
         def receiver():
             for i in frames:
-                m.on_message(0x185, bytearray([i]), 10.0 + i)
+                s.note(("deliver", i))
+                if i == 0:
+                    m.on_message(0x184, bytearray([0xEE]), 99.0)     # not this map's COB-ID: must be ignored
+                else:
+                    m.on_message(0x185, bytearray([i]), 10.0 + i)
         wt = s.spawn(waiter, "waiter")
         if frames:
             s.spawn(receiver, "receiver")
@@ -454,12 +460,20 @@ def run_wait(case, st):
             st.violation("C15:wait:exception", rc, "timestamp or None", res[1])
             return
         first_wait = next((i for i, e in enumerate(events) if e[0] == "wait-enter"), None)
-        n_before = sum(1 for i, e in enumerate(events) if e == ("cs-enter", "receiver") and (first_wait is None or i < first_wait))
-        during = [10.0 + i for i in frames][n_before:]
+        # a matching frame counts as "during the wait" when its delivery started after the reader began to wait
+        during = [10.0 + e[1] for i, e in enumerate(events) if e[0] == "deliver" and e[1] != 0 and first_wait is not None and i > first_wait]
+        before = [10.0 + e[1] for i, e in enumerate(events) if e[0] == "deliver" and e[1] != 0 and (first_wait is None or i < first_wait)]
         ts, data, t = res
+        if ts is None and t < TIMEOUT - 0.01:
+            st.violation("C15:wait:gives-up-before-the-timeout", rc, f"None only at the time-out ({TIMEOUT})", f"None at t={t} events={events}"[:300])
+            return
+        if before and not during and ts is not None and ts in before:
+            # the delivery started before the reader waited but its critical section may still have followed: allowed
+            st.outcome("frame straddling the start of the wait")
+            return
         st.outcome(f"during={len(during)} -> {'timestamp' if ts is not None else 'None'}")
         if during:
-            if ts not in during:
+            if ts not in during + before[-1:]:
                 st.violation("C15:wait:wrong-or-no-timestamp", rc, f"one of {during}", f"{ts} data={data.hex()} t={t}")
             elif t >= TIMEOUT:
                 st.violation("C15:wait:lost-wakeup", rc, "returns when the frame is delivered", f"returned at t={t}")
